@@ -4,7 +4,11 @@
 set -u
 export GOFLAGS=-mod=mod GOPROXY=off GOSUMDB=off GOTOOLCHAIN=local
 V="$(cd "$(dirname "$0")/.." && pwd)"; TIER="${1:-quick}"
+# SHARD=i/n: only every n-th change, starting with the i-th (for running several in parallel)
+SI="${SHARD%%/*}"; SN="${SHARD##*/}"; [ -n "${SHARD:-}" ] || { SI=0; SN=1; }
+k=-1
 for D in "$V"/seeded/C*; do
+  k=$((k+1)); [ $((k % SN)) -eq "$SI" ] || continue
   id="$(basename "$D")"; P="${id%%-*}"
   cp_="$(python3 -c "import json;print(json.load(open('$D/meta.json')).get('check_property',''))" 2>/dev/null)"; [ -n "$cp_" ] && P="$cp_"
   M="$(mktemp -d /tmp/reseed.XXXXXX)"
